@@ -256,8 +256,26 @@ package ast
 //@   site (*Tasks).Set#0 requires include.AdvancedImport ==> itvDone       -- and so do the included file's own vars, flattened or not   [C10]
 
 // The alias block after the loop only touches the default task if it was merged (it may have been excluded).
+//@ ghost var defaultSeen bool scratch
+//@ ghost var nsIsTask bool scratch
+//@ ghost var dtAsked bool scratch
 //@ func (*Tasks).Merge
 //@   sweep                                                                                                              [C16]
+// "<namespace>" names the default task of an include unless the parent has a TASK of that name (or the include is
+// flattened): whenever the included file has a default task and no task of the parent is called like the namespace,
+// the namespace becomes an alias of "<namespace>:default" - also when some other task already uses that word as an
+// alias: the clash is then an ambiguous alias, reported (203) when the name is asked for, never resolved silently in
+// favour of one of the two
+//@   init defaultSeen := false
+//@   init nsIsTask := false
+//@   init dtAsked := false
+//@   site (*Tasks).Get#1 requires arg0 == t2 && arg1 == "default"                                                       [C08,C15]
+//@   site (*Tasks).Get#1 ghost defaultSeen := result.1
+//@   site (*Tasks).Get#2 requires arg0 == t1 && arg1 == include.Namespace                                               [C08,C15]
+//@   site (*Tasks).Get#2 ghost nsIsTask := result.1
+//@   site (*Tasks).Get#3 ghost dtAsked := true
+//@   ensures result == nil && defaultSeen && !nsIsTask && !include.Flatten ==> dtAsked                                  [C08,C15]
+//@   site append#0 requires arg1[0] == include.Namespace                                                               [C08,C15]
 
 // Iterators over the ordered maps call the loop body for every element; the body may change whatever its own
 // contract allows, but not the variables captured by the surrounding function.
